@@ -44,6 +44,7 @@ fn eval(op: &str, args: &[&str]) -> Option<Vec<String>> {
         "client" => client::client(args),
         "tls" => tlsop::tls(args),
         "pool" => poolop::pool(args),
+        "wstall" => poolop::wstall(args),
         "transports" => c18::transports(args),
         "body" => c10::body(args),
         "hval" | "hvalrt" => c02::hval(args),
